@@ -58,6 +58,9 @@ type c19IngWalker struct {
 	pkgPath string
 	sites   map[*ssa.Function][]ssa.CallInstruction
 	mcs     map[*ssa.Function][]*ssa.MakeClosure
+	// stop, when set, makes the walk end at the calls it matches: what is found then is what the
+	// value is made of WITHOUT having passed such a call (c19_r10.go: a cleaning call).
+	stop func(*ssa.Call) bool
 }
 
 func c19NewIngWalker(p *core.Prog, pkg string) *c19IngWalker {
@@ -274,6 +277,9 @@ func (w *c19IngWalker) of(v ssa.Value) *c19Ing {
 				}
 			}
 		case *ssa.Call:
+			if w.stop != nil && w.stop(x) {
+				return
+			}
 			switch core.Short(core.CalleeName(x)) {
 			case "time.Now":
 				out.clock = true
